@@ -119,7 +119,7 @@ Qed.
 (* ---- the configuration file as a whole *)
 Lemma wf_cfg_steps g : wf_cfg g = true ->
   (exists r, c_steps g = CLoadJson :: CValidate :: r) /\ catches g "ValueError" = true /\
-  catches g "OSError" = true /\ c_missing_msg g = true /\ wf_loader (c_loader g) = true.
+  catches g "OSError" = true /\ catches g "RecursionError" = true /\ c_missing_msg g = true /\ wf_loader (c_loader g) = true.
 Proof.
   unfold wf_cfg. intro H. repeat (apply andb_true_iff in H; destruct H as [H ?]).
   repeat split; try assumption.
@@ -134,8 +134,8 @@ Lemma faulty_keeps_cli g c f : wf_cfg g = true ->
   end ->
   load_config g c f = Some (c, 1).
 Proof.
-  intros W Hf. destruct (wf_cfg_steps g W) as [[r Hs] [Hv [Ho [Hm _]]]].
-  destruct f; cbn [load_config]; try contradiction; rewrite ?Hs, ?Hv, ?Ho, ?Hm; try reflexivity.
+  intros W Hf. destruct (wf_cfg_steps g W) as [[r Hs] [Hv [Ho [Hr [Hm _]]]]].
+  destruct f; cbn [load_config]; try contradiction; rewrite ?Hs, ?Hv, ?Ho, ?Hr, ?Hm; try reflexivity.
   now rewrite Hf.
 Qed.
 
